@@ -27,7 +27,7 @@ META = {
 }
 
 CLOCK = ('040229', '1230', '20040229', '123059', 123456789)
-TRIPLES = [('~', '*', ':'), ('|', '^', '>'), ('!', '+', '\\'), ('\x1c', '\x1d', ':'), ('~', '|', '>'), ('\n', '*', ':'), ('~', '*', '\\'), ('$', '*', '?'), ('\r', '*', ':')]
+TRIPLES = [('~', '*', ':'), ('|', '^', '>'), ('!', '+', '\\'), ('\x1c', '\x1d', ':'), ('~', '|', '>'), ('\n', '*', ':'), ('~', '*', '\\'), ('$', '*', '?'), ('\r', '*', ':'), ('~', '*', '\x1f')]
 BREAKS = ['', '\n', '\r\n', '\r', '\n\n']
 
 
@@ -177,13 +177,15 @@ def run(ctx, report):
             inp = {'document': label, 'delims': list(d2), 'break': brk, 'text': text[:3000], 'reencoded': t2[:3000]}
             report.count('verdict:' + base[0])
             if got[0] != base[0]:
-                report.fail('C12:verdict:%s->%s' % (base[0], got[0]), 'verdict changes with the encoding: %s vs %s' % (base[0], got[0]), inp)
+                sit = ':component-separator-is-a-control-character' if ord(d2[2]) < 32 else ''
+                report.fail('C12:verdict:%s->%s%s' % (base[0], got[0], sit), 'verdict changes with the encoding: %s vs %s' % (base[0], got[0]), inp)
                 continue
             if got[1] != base[1]:
                 k = next((i for i, (a, b) in enumerate(zip(base[1], got[1])) if a != b), min(len(base[1]), len(got[1])))
                 a = base[1][k] if k < len(base[1]) else '<end>'
                 b = got[1][k] if k < len(got[1]) else '<end>'
-                report.fail('C12:errors-differ:%s' % a.split(',')[0], 'handler calls differ at call %d: %s vs %s' % (k, a[:160], b[:160]), inp)
+                sit = ':component-separator-is-a-control-character' if ord(d2[2]) < 32 else ''
+                report.fail('C12:errors-differ:%s%s' % (a.split(',')[0], sit), 'handler calls differ at call %d: %s vs %s' % (k, a[:160], b[:160]), inp)
                 continue
             if got[2] != base[2]:
                 la, lb = base[2].split('\n'), got[2].split('\n')
